@@ -101,3 +101,19 @@ func (c *Ctx) ScanRaceLogs() {
 			Case:   map[string]any{"stream": "race", "index": 0, "pair": r.Pair, "count": r.Count}})
 	}
 }
+
+// RaceSeen reports whether the race detector has already written a report for this run (cheap: file sizes
+// only).  Workloads that hammer a racy path use it to stop early; the reports become violations in Finish.
+func RaceSeen() bool {
+	prefix := os.Getenv("VERIF_RACELOG")
+	if prefix == "" {
+		return false
+	}
+	files, _ := filepath.Glob(prefix + ".*")
+	for _, f := range files {
+		if st, err := os.Stat(f); err == nil && st.Size() > 0 {
+			return true
+		}
+	}
+	return false
+}
